@@ -146,6 +146,7 @@ func rulesC02(c *Ctx) {
 	R.Rule("R6", "fee limit argument of every pay call = stored FeeReserve or FeeReserve(AmountMsat/1000); backends forward maxFee", 4)
 	R.Rule("R7", "melt quote creation: Amount from the decoded invoice / MPP option, FeeReserve = FeeReserve(Amount) or 0", 3)
 	R.Rule("R8", "every input is counted once: the spent-table insert is a plain INSERT inside one transaction (a repeated secret fails the whole request)", 4)
+	R.Rule("R11", "an invoice is requested only for an amount proven to fit in millisats as a signed 64-bit number (the backends multiply by 1000 / convert to int64; a wrapped product gives an invoice for less than the quote)", 1)
 	R.Rule("R10", "internal settlement: the melt operation writes a mint quote's state only behind 'the melt quote's invoice equals the mint quote's stored payment request'", 1)
 	R.Rule("R9", "a mint quote becomes PAID only behind stored state == UNPAID and a settled invoice of that quote (shared with C03.R2): a PENDING or ISSUED quote is never re-opened by a poll", 4)
 	c.vocabProblems("R1")
@@ -269,6 +270,9 @@ func rulesC02(c *Ctx) {
 				"a mint quote is credited by a melt only when the melted invoice is that quote's own invoice (the payment hash alone does not identify it: anyone can encode another amount around the same hash)", why)
 		}
 	}
+
+	// ---- R11 the amount of a mint quote fits the units of the Lightning backends
+	c.c02InvoiceAmountBounded()
 
 	// ---- R4 fee formula
 	ks := c.keysetsMapField("R4")
@@ -807,4 +811,109 @@ func (c *Ctx) ruleMintAmount(rule string, mint *ssa.Function) {
 		}
 	}
 
+}
+
+// c02InvoiceAmountBounded: R11. Every CreateInvoice call of the mint-quote operation is reached only behind
+// amount <= K with K*1000 <= MaxInt64, for the very amount handed to the backend (and stored in the quote).
+func (c *Ctx) c02InvoiceAmountBounded() {
+	R := c.R
+	op := c.op("R11", "/v1/mint/quote/{method}")
+	if op == nil {
+		return
+	}
+	fk := c.P.FuncKey(op)
+	o := c.P.OriginsOf(op)
+	sites := c.Effects(op, func(d *CallDesc) bool {
+		m, ok := c.V.IsLNCall(d)
+		return ok && m == "CreateInvoice"
+	})
+	if len(sites) == 0 {
+		R.Unresolved("R11", "invoice request in "+fk, "no CreateInvoice call reachable from the mint-quote operation")
+		return
+	}
+	const limit = "9223372036854775" // MaxInt64 / 1000
+	leq := func(k string, strict bool) bool {
+		// k <= limit (or k-1 <= limit for a strict comparison), on decimal strings of non-negative integers
+		if strings.HasPrefix(k, "-") {
+			return false
+		}
+		cmp := func(a, b string) int {
+			a, b = strings.TrimLeft(a, "0"), strings.TrimLeft(b, "0")
+			if len(a) != len(b) {
+				if len(a) < len(b) {
+					return -1
+				}
+				return 1
+			}
+			return strings.Compare(a, b)
+		}
+		if strict {
+			return cmp(k, limit) <= 0 || k == "9223372036854776"
+		}
+		return cmp(k, limit) <= 0
+	}
+	for _, s := range sites {
+		inner := c.P.Describe(s.Inner)
+		if len(inner.Args) < 1 {
+			R.Undecided("R11", fk, siteDesc(c, s)+" <= amount bounded", c.P.InstrPos(s.Instr), "amount fits in millisats", "CreateInvoice call without an amount argument")
+			continue
+		}
+		var amt *Ex
+		if s.Direct {
+			amt = o.Of(inner.Args[0])
+		} else {
+			// one helper level: the backend's argument is a parameter of the helper, read at the call in the operation
+			callee := s.Inner.Parent()
+			ia := c.P.OriginsOf(callee).Of(inner.Args[0])
+			d := c.P.Describe(s.Instr)
+			if len(s.Chain) == 1 && strings.HasPrefix(ia.String(), "P:") && s.Instr.Common().StaticCallee() == callee {
+				for i, p := range callee.Params {
+					if "P:"+p.Name() == ia.String() {
+						all := s.Instr.Common().Args
+						if i < len(all) {
+							amt = o.Of(all[i])
+						}
+					}
+				}
+			}
+			_ = d
+		}
+		if amt == nil {
+			R.Undecided("R11", fk, siteDesc(c, s)+" <= amount bounded", c.P.InstrPos(s.Instr), "amount fits in millisats", "the amount handed to the backend is not a parameter of a single helper")
+			continue
+		}
+		want := amt.String()
+		bounded := &Cond{Name: "amount <= MaxInt64/1000", Match: func(f *Fact, _ *Origins) bool {
+			if f.Kind != "cmp" || f.A == nil || f.B == nil {
+				return false
+			}
+			a, b, op2, pos := f.A, f.B, f.Op.String(), f.Pos
+			if b.String() == want && a.K == "const" {
+				a, b = b, a
+				switch op2 {
+				case "<":
+					op2 = ">"
+				case "<=":
+					op2 = ">="
+				case ">":
+					op2 = "<"
+				case ">=":
+					op2 = "<="
+				}
+			}
+			if a.String() != want || b.K != "const" {
+				return false
+			}
+			switch {
+			case op2 == "<=" && pos, op2 == ">" && !pos:
+				return leq(b.S, false)
+			case op2 == "<" && pos, op2 == ">=" && !pos:
+				return leq(b.S, true)
+			}
+			return false
+		}}
+		ok, why := c.RequireAt(s.Instr, bounded)
+		R.Check("R11", fk, siteDesc(c, s)+" <= amount bounded", c.P.InstrPos(s.Instr), ok,
+			"the amount for which an invoice is requested was compared against a constant bound of at most MaxInt64/1000 sats", why)
+	}
 }
